@@ -262,7 +262,7 @@ JudgeOut judge(const json &plan)
 	note_schedule(out, plan);
 	death_and_stdout(r, "", out.viol);
 	out.viol.erase(std::remove_if(out.viol.begin(), out.viol.end(), [](const Violation &v) { return v.cls.compare(0, 7, "stdout:") == 0 || v.cls.compare(0, 6, "stdin:") == 0; }), out.viol.end());
-	// abort() inside a context creation whose allocation was made to fail is C18's listed finding, not this property's
+	// abort() inside a context creation whose allocation was made to fail is C18's to report (repaired by d28ed42; C18 raises it again should it return), not this property's
 	for (auto &o : r.ops)
 		if (o.death == D_ABORT && o.fail_fired) {
 			out.viol.erase(std::remove_if(out.viol.begin(), out.viol.end(), [](const Violation &v) { return v.cls.compare(0, 12, "death:abort:") == 0; }), out.viol.end());
